@@ -1,8 +1,9 @@
 //! Pass 2: walk one function body in evaluation order and produce its event
 //! list.  Guard live ranges follow Rust's drop rules, erring on the long side:
 //!
-//!  * `let g = <lock>.read().await;` (also through `&`, `*`, `.field`, parens,
-//!    casts, tuple/struct operands, block tails: temporary lifetime extension)
+//!  * `let g = <lock>.read().await;` (also through parens, casts, tuple/struct
+//!    operands and block tails, and `let r = &<lock>.read().await.field` etc.:
+//!    temporary lifetime extension under a `&`)
 //!    -> held until the end of the enclosing block or an explicit `drop(g)`;
 //!  * an acquisition used as a receiver / operand inside a larger expression is
 //!    a temporary -> held until the end of the enclosing statement (for the
@@ -18,7 +19,18 @@
 //!    again (`Hold`), since the other path did not release it.
 //!
 //! `tokio::spawn(..)`-like calls start a new task: their argument is walked as
-//! a separate root function `parent{task#k}` with nothing held.
+//! a separate root function `parent{task#k}` with nothing held.  A closure or
+//! async block bound by `let f = ..` is a function `parent{closure#k}` of its
+//! own, called where it is written and at every later mention of `f`; any
+//! other closure / async block is walked in place.  A call of an async fn that
+//! is not awaited in place (future kept for later) fails the run.
+//!
+//! Calls are resolved by the (heuristic) type of the receiver -- `self`, typed
+//! fields / parameters / locals, lazy_static globals, return types of resolved
+//! callees -- and otherwise by name and argument count to ALL same-named
+//! functions of the parsed crates.  Names in STOP_LIST are not linked when the
+//! receiver type is unknown; the functions skipped that way are reported
+//! (`dropped`) and re-checked to be lock-free by the Coq obligation.
 
 use crate::index::{is_test_only, pat_idents, FnDef, Index};
 use std::collections::BTreeSet;
@@ -31,13 +43,17 @@ pub enum Ev {
     Rel { lock: String },
     Hold { lock: String },
     Call { site: String, callees: Vec<usize> },
+    CallLocal { site: String, name: String }, // call of / mention of a let-bound closure or async block (a function of its own)
 }
 
 /// Names that are overwhelmingly std / tokio / collection methods.  A call
 /// `x.name(..)` whose receiver type could not be determined is NOT linked to
 /// same-named functions of the parsed crates when `name` is listed here.  A call
 /// whose receiver type is known (`self.`, a typed field, parameter or local, or
-/// `Type::name(..)`) is always linked, whatever its name.
+/// `Type::name(..)`) is always linked, whatever its name.  Every function skipped
+/// because of this list ends up in `not_linked` of LockGraph.v and must have a
+/// summary without shared locks (checked in Coq), so a wrong entry here makes the
+/// check fail instead of hiding an edge.
 pub const STOP_LIST: &[&str] = &[
     "new", "default", "clone", "from", "into", "try_from", "try_into", "len", "is_empty", "get", "get_mut", "insert", "remove",
     "push", "push_back", "push_front", "pop", "pop_front", "pop_back", "iter", "iter_mut", "into_iter", "next", "contains",
@@ -102,6 +118,8 @@ enum Ctx {
     Recv,           // value used in place (receiver, operand, borrowed): an acquisition here is a temporary
     Value,          // value moved somewhere we do not follow: an acquisition here escapes
     LetInit(usize), // initializer of a `let` whose block frame is given: an acquisition here is a let-bound guard
+    LetRef(usize),  // under a `&` of such an initializer (temporary lifetime extension): held to the end of that
+                    // block, but the variable is only a reference, so `drop(var)` does not release it
 }
 
 #[derive(PartialEq, Clone, Copy)]
@@ -116,6 +134,7 @@ struct Frame {
     guards: Vec<usize>,
     restore: Vec<usize>,
     env_len: usize,
+    clos_len: usize,
 }
 
 struct Guard {
@@ -142,6 +161,7 @@ pub struct Walker<'a> {
     frames: Vec<Frame>,
     guards: Vec<Guard>,
     env: Vec<(String, Vec<String>)>,
+    closures: Vec<(String, String)>, // let-bound closure variable -> its function name
     let_var: Option<String>,
     awaited_next: bool,
     acq_n: usize,
@@ -170,7 +190,7 @@ pub fn walk_fn(idx: &Index, f: &FnDef) -> (Vec<Out>, Vec<String>, BTreeSet<Strin
 
 impl<'a> Walker<'a> {
     fn new(idx: &'a Index, cur: &'a FnDef, name: String, env: Vec<(String, Vec<String>)>) -> Self {
-        Walker { idx, cur, name, events: vec![], frames: vec![], guards: vec![], env, let_var: None, awaited_next: false, acq_n: 0, call_n: 0, task_n: 0,
+        Walker { idx, cur, name, events: vec![], frames: vec![], guards: vec![], env, closures: vec![], let_var: None, awaited_next: false, acq_n: 0, call_n: 0, task_n: 0,
                  tasks: vec![], log: vec![], unclassified: BTreeSet::new(), unparsed_macros: BTreeSet::new(), ambiguous: BTreeSet::new(), dropped: BTreeSet::new() }
     }
 
@@ -183,7 +203,7 @@ impl<'a> Walker<'a> {
 
     // ---------- frames and guards ----------
     fn push(&mut self, kind: Kind, conditional: bool) {
-        self.frames.push(Frame { kind, conditional, guards: vec![], restore: vec![], env_len: self.env.len() });
+        self.frames.push(Frame { kind, conditional, guards: vec![], restore: vec![], env_len: self.env.len(), clos_len: self.closures.len() });
     }
 
     fn pop(&mut self) {
@@ -202,6 +222,7 @@ impl<'a> Walker<'a> {
         }
         if f.kind == Kind::Block {
             self.env.truncate(f.env_len);
+            self.closures.truncate(f.clos_len);
         }
     }
 
@@ -331,7 +352,7 @@ impl<'a> Walker<'a> {
     }
 
     // ---------- call resolution ----------
-    /// `Type::f(..)`, `Self::f(..)`, `module::f(..)`, `f(..)` -> (callees, resolved by type?)
+    /// `Type::f(..)`, `Self::f(..)`, `module::f(..)`, `f(..)` -> (callees, same-named functions deliberately not linked)
     fn resolve_path_call(&self, func: &Expr) -> (Vec<usize>, Vec<usize>) {
         let Expr::Path(p) = func else { return (vec![], vec![]) };
         let segs: Vec<String> = p.path.segments.iter().map(|s| s.ident.to_string()).collect();
@@ -406,7 +427,9 @@ impl<'a> Walker<'a> {
     /// a future created by calling an async fn but not awaited on the spot runs later, possibly under other guards
     fn deferred(&mut self, callees: &[usize], awaited: bool) {
         if !awaited && callees.iter().any(|&f| self.idx.fns[f].is_async) {
-            self.log.push(format!("deferred future in {}: call of async {} is not awaited in place", self.name,
+            // certain (every candidate is async) -> the run fails; possible (name-only resolution mixes sync and async) -> note
+            let level = if callees.iter().all(|&f| self.idx.fns[f].is_async) { "ERROR " } else { "" };
+            self.log.push(format!("{}deferred future in {}: call of async {} is not awaited in place (it would be analysed here, not where it runs)", level, self.name,
                                   callees.iter().map(|&f| self.idx.fns[f].name.clone()).collect::<Vec<_>>().join("|")));
         }
     }
@@ -439,7 +462,15 @@ impl<'a> Walker<'a> {
                         let wild = matches!(&l.pat, Pat::Wild(_));
                         let saved = self.let_var.take();
                         self.let_var = if ids.len() == 1 { Some(ids[0].clone()) } else { None };
-                        self.expr(&init.expr, if wild { Ctx::Recv } else { Ctx::LetInit(me) });
+                        if matches!(&*init.expr, Expr::Closure(_) | Expr::Async(_)) && ids.len() == 1 {
+                            // `let f = |..| ..;` / `let fut = async { .. };` runs where it is called / awaited, not here:
+                            // a function of its own, called at the definition (conservative) and at every later mention
+                            let name = self.local_fn(&init.expr);
+                            self.call_local(&name);
+                            self.closures.push((ids[0].clone(), name));
+                        } else {
+                            self.expr(&init.expr, if wild { Ctx::Recv } else { Ctx::LetInit(me) });
+                        }
                         self.let_var = saved;
                         tys = self.ety(&init.expr);
                         if let Some((_, d)) = &init.diverge {
@@ -508,10 +539,51 @@ impl<'a> Walker<'a> {
         matches!(name, "spawn" | "spawn_blocking" | "spawn_local")
     }
 
+    fn call_local(&mut self, name: &str) {
+        let site = format!("{}#c{}", self.name, self.call_n);
+        self.call_n += 1;
+        self.events.push(Ev::CallLocal { site, name: name.to_string() });
+    }
+
+    fn mention(&mut self, var: &str) {
+        if let Some((_, name)) = self.closures.iter().rev().find(|(v, _)| v == var).cloned() {
+            self.call_local(&name);
+        }
+    }
+
+    /// body of a let-bound closure / async block as a function of its own (nothing held at its start)
+    fn local_fn(&mut self, e: &Expr) -> String {
+        let name = format!("{}{{closure#{}}}", self.name, self.task_n);
+        self.task_n += 1;
+        let mut w = Walker::new(self.idx, self.cur, name.clone(), self.env.clone());
+        w.closures = self.closures.clone();
+        w.push(Kind::Temp, false);
+        match e {
+            Expr::Async(x) => w.body(&x.block),
+            Expr::Closure(c) => w.closure(c, vec![]),
+            _ => {}
+        }
+        w.pop();
+        self.absorb(&mut w, name.clone(), false);
+        name
+    }
+
+    fn absorb(&mut self, w: &mut Walker<'a>, name: String, is_task: bool) {
+        self.log.append(&mut w.log);
+        self.unclassified.append(&mut w.unclassified);
+        self.unparsed_macros.append(&mut w.unparsed_macros);
+        self.ambiguous.append(&mut w.ambiguous);
+        self.dropped.append(&mut w.dropped);
+        let events = std::mem::take(&mut w.events);
+        self.tasks.push(Out { name, file: self.cur.file.clone(), krate: self.cur.krate.clone(), wasm_entry: false, is_task, events });
+        self.tasks.append(&mut w.tasks);
+    }
+
     fn task(&mut self, args: &Punctuated<Expr, Token![,]>) {
         let name = format!("{}{{task#{}}}", self.name, self.task_n);
         self.task_n += 1;
         let mut w = Walker::new(self.idx, self.cur, name.clone(), self.env.clone());
+        w.closures = self.closures.clone();
         w.push(Kind::Temp, false);
         for a in args {
             match a {
@@ -524,13 +596,7 @@ impl<'a> Walker<'a> {
             }
         }
         w.pop();
-        self.log.append(&mut w.log);
-        self.unclassified.append(&mut w.unclassified);
-        self.unparsed_macros.append(&mut w.unparsed_macros);
-        self.ambiguous.append(&mut w.ambiguous);
-        self.dropped.append(&mut w.dropped);
-        self.tasks.push(Out { name, file: self.cur.file.clone(), krate: self.cur.krate.clone(), wasm_entry: false, is_task: true, events: w.events });
-        self.tasks.append(&mut w.tasks);
+        self.absorb(&mut w, name, true);
     }
 
     fn mac(&mut self, m: &syn::Macro) {
@@ -595,6 +661,7 @@ impl<'a> Walker<'a> {
                     let v = self.let_var.clone();
                     self.acquire(&lock, write, f, v);
                 }
+                Ctx::LetRef(f) => self.acquire(&lock, write, f, None),
                 Ctx::Value => {
                     self.log.push(format!("escaping guard ({}) in {}: held to the end of the function", lock, self.name));
                     self.acquire(&lock, write, 0, None);
@@ -644,8 +711,10 @@ impl<'a> Walker<'a> {
                     self.task(&c.args);
                     return;
                 }
-                if !matches!(&*c.func, Expr::Path(_)) {
-                    self.expr(&c.func, Ctx::Recv);
+                match &*c.func {
+                    Expr::Path(p) if p.path.segments.len() == 1 => self.mention(&p.path.segments[0].ident.to_string()),
+                    Expr::Path(_) => {}
+                    other => self.expr(other, Ctx::Recv),
                 }
                 for a in &c.args {
                     self.expr(a, Ctx::Value);
@@ -735,10 +804,11 @@ impl<'a> Walker<'a> {
             }
             Expr::Loop(l) => self.cond_block(&l.body, Ctx::Recv),
             Expr::Let(l) => self.expr(&l.expr, Ctx::Recv),
-            // forms through which a `let` initializer keeps its (extended) guard
-            Expr::Reference(r) => self.expr(&r.expr, if let Ctx::LetInit(_) = ctx { ctx } else { Ctx::Recv }),
-            Expr::Unary(u) => self.expr(&u.expr, if let Ctx::LetInit(_) = ctx { ctx } else { Ctx::Recv }),
-            Expr::Field(f) => self.expr(&f.base, if let Ctx::LetInit(_) = ctx { ctx } else { Ctx::Recv }),
+            // temporary lifetime extension: `let x = &<place based on a temporary>` keeps the temporary alive to
+            // the end of the block; without the `&` a field / deref / index of a temporary is an ordinary temporary
+            Expr::Reference(r) => self.expr(&r.expr, match ctx { Ctx::LetInit(f) | Ctx::LetRef(f) => Ctx::LetRef(f), _ => Ctx::Recv }),
+            Expr::Unary(u) => self.expr(&u.expr, if let Ctx::LetRef(_) = ctx { ctx } else { Ctx::Recv }),
+            Expr::Field(f) => self.expr(&f.base, if let Ctx::LetRef(_) = ctx { ctx } else { Ctx::Recv }),
             Expr::Paren(p) => self.expr(&p.expr, ctx),
             Expr::Group(p) => self.expr(&p.expr, ctx),
             Expr::Cast(c) => self.expr(&c.expr, ctx),
@@ -758,7 +828,7 @@ impl<'a> Walker<'a> {
                 self.expr(&r.len, Ctx::Recv);
             }
             Expr::Index(i) => {
-                self.expr(&i.expr, Ctx::Recv);
+                self.expr(&i.expr, if let Ctx::LetRef(_) = ctx { ctx } else { Ctx::Recv });
                 self.expr(&i.index, Ctx::Recv);
             }
             Expr::Binary(b) => {
@@ -794,7 +864,12 @@ impl<'a> Walker<'a> {
             }
             Expr::TryBlock(b) => self.block(&b.block, ctx, false),
             Expr::Const(b) => self.block(&b.block, ctx, false),
-            Expr::Path(_) | Expr::Lit(_) | Expr::Continue(_) | Expr::Infer(_) | Expr::Verbatim(_) => {}
+            Expr::Path(p) => {
+                if p.path.segments.len() == 1 {
+                    self.mention(&p.path.segments[0].ident.to_string());
+                }
+            }
+            Expr::Lit(_) | Expr::Continue(_) | Expr::Infer(_) | Expr::Verbatim(_) => {}
             other => self.log.push(format!("ERROR unhandled expression kind in {}: {:?}", self.name, std::mem::discriminant(other))),
         }
     }
